@@ -23,6 +23,10 @@ NOTES = [
     "'x[:1] + 0'; that is an embedding in C10's sense (its consequence for C11 is an open C11 finding)",
     "equal content = plain field values equal as Python values of the same type, identifier lists equal as lists; "
     "Fields called ctx / args hold no plain values in CPython's grammar and are not content",
+    "report state between calls (the parse cache, cait['ast'] / cait['success'], the Source tool's tree, the "
+    "submission replaced by set_source / restore_code) is not modelled: the search asks its questions also as steps of "
+    "random and small-scope exhaustive HISTORIES on one report and judges every answer against a fresh ast.parse of the "
+    "text that step asked about (the harness keeps its own record of what the submission is)",
     "pattern trees satisfy opLeaves (Add/Mult operator nodes are leaves): true of every ast tree, checked by the "
     "driver on every request",
 ]
